@@ -212,6 +212,15 @@ func runCase(c *fw.Ctx, we *sut.WebEnv, hc *http.Client, backend string, idx int
 			return
 		}
 		pre = 1
+		// The newest message is also reachable under the id "latest"; whoever reads it now must
+		// not change what "latest" yields after the next delivery (after seeded change C02-10).
+		for _, b := range boxes {
+			for _, u := range []string{"/api/v1/mailbox/" + b + "/latest/source", "/serve/mailbox/" + b + "/latest/source"} {
+				if status, _, err := k.get(we.Base + u); err == nil && status == 200 {
+					c.Count("latest_source_read_before_the_delivery", 1)
+				}
+			}
+		}
 	}
 	// A declared SIZE is advisory: whatever the client declares (nothing, the truth, too little,
 	// too much - all far below the configured maximum), the stored bytes are the transmitted ones.
@@ -404,6 +413,8 @@ func (k *caseCtx) checkCopy(box string, pre int, helo, sender string, sent []byt
 	for _, ep := range []struct{ name, url string }{
 		{"rest", we.Base + "/api/v1/mailbox/" + box + "/" + id + "/source"},
 		{"webui", we.Base + "/serve/mailbox/" + box + "/" + id + "/source"},
+		{"rest-latest", we.Base + "/api/v1/mailbox/" + box + "/latest/source"},
+		{"webui-latest", we.Base + "/serve/mailbox/" + box + "/latest/source"},
 	} {
 		status, body, err := k.get(ep.url)
 		if err != nil || status != 200 {
